@@ -695,6 +695,8 @@ func (o *ObjectSchema) invalidKeyError(value any) error {
 			value,
 			strings.Join(validKeys, ", "),
 		),
+		// The offending element is the key itself: it ends the path, like the name of a property that is missing.
+		Path: []string{fmt.Sprintf("%v", value)},
 	}
 }
 
